@@ -254,6 +254,29 @@ static void run_gc(rng &r)
 	{ DIR *d = opendir(g_dir.c_str()); if (d) { while (dirent *e = readdir(d)) if (e->d_name[0] != '.' || strcmp(e->d_name, ".hidden") == 0) unlink((g_dir + "/" + e->d_name).c_str()); closedir(d); } }
 }
 
+// a garbage file with a well-formed name whose 32-bit size field is far beyond the file's length: 16 bytes on disk that claim
+// 2^31 bytes of data; the checksum stored is the CRC-32 of 2^31 zero bytes, which is what a reader that "reads" nothing
+// into a zero-filled buffer would compute. load() must report no session (and remove the file), not hand out 2 GiB of zeros.
+static void huge_size_case()
+{
+	cppcms::sessions::session_file_storage_factory f(g_dir, 1, 1, false);
+	booster::shared_ptr<cppcms::sessions::session_storage> st = f.get();
+	struct { int64_t timeout; uint32_t crc; uint32_t size; } hdr = { (int64_t)vclock::now() + 1000, 0x4dbdf21cu, 0x80000000u };
+	static struct { uint32_t size, crc; } const variants[] = { { 0x80000000u, 0x4dbdf21cu } };
+	for (auto const &v : variants) {
+		std::string sid = "0000000000000000000000000000abcd", path = g_dir + "/" + sid;
+		hdr.size = v.size; hdr.crc = v.crc;
+		put_file(path, std::string((char const *)&hdr, sizeof hdr));
+		time_t t = 0; std::string out;
+		bool ok = false;
+		try { ok = st->load(sid, t, out); } catch (std::exception const &e) { O().viol("fstore:load-threw-on-garbage-file", e.what()); }
+		O().count("garbage_size_field_cases");
+		if (ok) O().viol("fstore:garbage-file-accepted:size-field-beyond-file-length", "a 16-byte file claiming " + std::to_string(v.size) + " data bytes was loaded as a session of " + std::to_string(out.size()) + " bytes", "{\"header_hex\":\"" + hex(std::string((char const *)&hdr, sizeof hdr)) + "\"}");
+		else if (exists(path)) O().viol("fstore:unreadable-file-not-removed-by-load", "size field beyond file length");
+		syscall(SYS_unlink, path.c_str());
+	}
+}
+
 int main(int argc, char **argv)
 {
 	args a(argc, argv);
@@ -263,6 +286,7 @@ int main(int argc, char **argv)
 	rng r(a.num("seed", 1));
 	long long cases = a.num("cases", 50);
 	bool thorough = a.has("thorough");
+	if (a.has("huge")) huge_size_case();
 	for (long long i = 0; i < cases && O().viol_count < 10; i++) { run_case(r, i, thorough); if (i % 3 == 0) run_gc(r); }
 	O().count("crash_states", g_states);
 	for (auto const &p : g_paths_opened) {
